@@ -259,14 +259,16 @@ pub fn check(c: &Case) -> CheckResult {
                         let size = size.max(48 + path.len());
                         let over = limit.is_some_and(|l| size > l);
                         let body_len = size - 48 - path.len();
-                        io.send(&sized_request(7, path, body_len, c.fill)).await.map_err(|e| Fail::new("harness-send", e.to_string()))?;
+                        // (request ids include 0, which a raw or third-party client may use)
+                        let rid: u64 = if c.fill % 4 == 0 { 0 } else { 7 };
+                        io.send(&sized_request(rid, path, body_len, c.fill)).await.map_err(|e| Fail::new("harness-send", e.to_string()))?;
                         let f = recv_frame(&mut io, "the response").await?;
                         let mut raw = f.header.encode().to_vec();
                         raw.extend(&f.query);
                         raw.extend(&f.body);
                         if over {
                             ensure!(
-                                f.header.id == 7 && f.header.ec == ErrorCode::InternalError as u32,
+                                f.header.id == rid && f.header.ec == ErrorCode::InternalError as u32,
                                 "oversized-response-not-replaced",
                                 "a {size}-byte response over the {limit:?} limit was answered with id {:#x} ec {} ({} bytes)",
                                 f.header.id,
@@ -280,7 +282,7 @@ pub fn check(c: &Case) -> CheckResult {
                                 errors.lock().unwrap()
                             );
                         } else {
-                            let want = expected_response(7, path, body_len, c.fill);
+                            let want = expected_response(rid, path, body_len, c.fill);
                             ensure!(
                                 raw == want,
                                 "deliverable-response-altered",
